@@ -233,7 +233,8 @@ class PoolReplayer:
     def compare_step(self, act, args, cur, real, got, nxt, st, hist):
         chk = self.chk
         proj = T.project_pool(got)
-        case = {"history": hist, "before": T.show(cur), "expected": T.show(nxt), "got": str(got)}
+        case = {"history": hist, "before": T.show(cur), "expected": T.show(nxt), "got": str(got), "object_srepr": sp.srepr(real),
+                "operation": self.opname(act)}
         if act.startswith("Vary"):
             # equality / hash law on a neighbour that differs in one argument or one pool
             if real == got or hash(real) == hash(got):
